@@ -362,9 +362,12 @@ TypeOK ==
                      /\ inflight[p].wire \in {"syn", "refused", "estab", "part", "ans_ok", "ans_bad", "closed"}
   /\ srv \in [Addrs -> Modes]
 
-\* at most one probe in flight per backend (per cluster and backend id, which is how the checker tells them apart)
+\* at most one probe in flight per backend = (cluster, backend id, address).  (The checker's filter looks at
+\* cluster and id only: two backends with one id at two addresses are probed together in one round and then both
+\* wait until neither has a probe in flight.)
 P_C12h_OneInFlight ==
-  \A p, q \in Pids : p # q => ~(inflight[p].c = inflight[q].c /\ inflight[p].id = inflight[q].id)
+  \A p, q \in Pids : p # q => ~(inflight[p].c = inflight[q].c /\ inflight[p].id = inflight[q].id
+                                   /\ inflight[p].addr = inflight[q].addr)
 
 \* the two streaks are streaks: never both positive
 P_C12h_Consecutive == \A c \in Clusters : \A s \in DOMAIN hs[c] : ~(hs[c][s].cs > 0 /\ hs[c][s].cf > 0)
